@@ -2,6 +2,7 @@
   C09 — Per-block fee bound is an upper bound on every approvable fee.
   Property theorems only (helper lemmas live in Lemmas/).
 -/
+import TealerModel.Props.TieFlow
 import TealerModel.Props.Common
 import TealerModel.Props.Tie
 import TealerModel.Props.TieMatchers
@@ -135,5 +136,13 @@ theorem C09_tie_matcher (intcs : Option (List Nat)) (ins : List Ins) (key : Key)
     TieM.toG2 (feeSingle intcs (constructAst ins) key p) =
       Generated.getAssertedFee (TieM.envOf intcs) (TieM.envOf intcs) key (treeOf (constructAst ins) (n + 3) (some (p, o))) :=
   TieM.fee_tie intcs _ (TieM.arity_constructAst ins) key n p o
+
+/-- the block-level constraint of this analysis is computed by the Python's own `_block_level_constraints`, translated on this
+    run (instance of `TieF.block_tie`; edge constraints and transfer functions: `C01_tie_constraints`, `C01_tie_transfer_functions`) -/
+theorem C09_tie_block_constraint (intcs : Option (List Nat)) (b : FBlock) (key : Key) (n : Nat) :
+    blockConstraint feeAnalysis intcs b key =
+      Generated.blockLevelConstraints (TieM.envOf intcs) feeAnalysis.dom (feeAnalysis.univ key.base)
+        (TieF.gaOf feeAnalysis intcs (constructAst b.ins) key (b.ins.length + 1)) (TieM.envOf intcs) key (TieF.fblockView b n) :=
+  TieF.block_tie feeAnalysis intcs b key n
 
 end Tealer.C09
